@@ -12,8 +12,9 @@ HARNESS = "h_C05.cpp"
 VARIANTS = {"quick": ["O1"], "thorough": ["O1", "asan"]}
 MODEL_NEEDS_IMPL = True      # the model's square-root oracle is the SVD factor the implementation computed
 AXIOMS_ALLOWED = []          # MathComp only: closed under the global context
-REQUIRED_THEOREMS = ["C05_block_sum", "C05_serial_cov_identity", "C05_push_through", "C05_sigma_cov", "C05_cov", "C05_mean",
-                     "C05_likelihood", "C05_Cinv_invertible", "C05_Pyy_invertible", "C05_step_equals_ukf",
+REQUIRED_THEOREMS = ["C05_block_sum", "C05_serial_cov_identity", "C05_push_through", "C05_sigma_cov", "C05_linear_roundtrip", "C05_cov", "C05_mean",
+                     "C05_likelihood", "C05_Cinv_invertible", "C05_sukf_log_argument_positive", "C05_ukf_log_argument_positive",
+                     "C05_Pyy_invertible", "C05_step_equals_ukf",
                      "C05_reduced_eq_full", "C05_reduced_eq_full_likelihood", "C05_size_mismatch_identity"]
 RULE = ("cases drawn from one seeded stream: state size n in 1..5, sub-measurement size s in 1..3, k in 1..4 blocks "
         "(meas = k*s), 15% of the cases with a measurement size that is NOT a multiple of s, components 1..3, "
@@ -22,7 +23,13 @@ RULE = ("cases drawn from one seeded stream: state size n in 1..5, sub-measureme
         "(10% exactly rank deficient PSD), noise blocks SPD: half of the cases with equal blocks (then both the reduced and "
         "the full constructor are run) and half with k different blocks (full constructor); output object pre-filled with "
         "unrelated content; non-trivial = k >= 2 or components >= 2 or h non-linear or size mismatch; "
-        "distinct by (n, s, k, comps, h kind, equal blocks, multiple, rank deficient). "
+        "distinct by (n, s, k, comps, h kind, equal blocks, multiple, rank deficient, variant, circular rows). "
+        "VARIANTS of the single-call cases: Euler angles in the state (10%, trailing 1..n rows, means in (-pi, pi), perturbations < pi: SUKF = UKF expected); "
+        "circular (Euler) measurement description (6%, trailing 1..m rows: both corrections use directional_mean / directional_sub: SUKF = UKF expected); wc_0 = 0 exactly (3%); wc_0 < 0 (3%, correspondence only); full-mode R with non-zero off-block "
+        "entries (4%, outside the premise 'block diagonal': correspondence only, the SUKF reads the diagonal blocks only); ill-conditioned noise "
+        "blocks (6%, cond 1e5..1e8); measurement smaller than one block (m < s, a quarter of the size mismatches); output object with MORE components "
+        "than the belief (8%: the extra components must be kept bit for bit); output object with FEWER components (a handful, run only where Eigen's "
+        "assertions are compiled in: the out-of-bounds write must be stopped by the assertion). "
         "SEQUENCE cases (120 quick / 4000 thorough): ONE SUKFCorrection object per constructor flag and ONE UKFCorrection object are "
         "driven through 2..4 correct()+getLikelihood() calls; between calls the harness measurement model is re-programmed and the belief "
         "replaced: nothing / R (same size, other blocks) / y / h / prior / number of components / measurement size (other k) / everything / "
@@ -33,20 +40,25 @@ TRUSTED_BASE = ["Coq 8.16.1 kernel (coqc); no axioms (Print Assumptions: closed 
                 "MathComp 1.15 matrix theory",
                 "extraction (ExtrOcamlBasic only) and ocaml/float_ops.ml, ocaml/drv_C05.ml, ocaml/caseio.ml",
                 "ListOps list instance of MatOps (structural operations and Gauss-Jordan inverse/determinant, unproved)",
-                "cpp/h_C05.cpp harness (its AdditiveMeasurementModel computing the h family), tolerances: mean/covariance 1e-10*cond*scale "
-                "(cond = max of cond(P_i), cond(R), cond(Pyy_i)); log-likelihood 1e-11 (impl vs model) / 1e-10 (SUKF vs UKF) times "
+                "cpp/h_C05.cpp harness (its AdditiveMeasurementModel computing the h family), tolerances per component: covariance 5e-12 * K_i * max|P_i|, "
+                "mean 5e-11 * K_i * |mean shift|, K_i = cond(I + Y_i^T R^-1 Y_i) + max_j cond(R_j) for the serial form, cond(Pyy_i) for the gain form, their sum for SUKF vs UKF "
+                "(both routes cancel from the prior's magnitude; measured worst 3.4e-15 / 1.8e-13 of these scales over 14000 components), comparisons whose covariance tolerance exceeds 1% of the largest "
+                "posterior entry excluded and counted; log-likelihood 1e-11 (impl vs model) / 1e-10 (SUKF vs UKF) times "
                 "cond(I+Y^T R^-1 Y)*(1+nu^T R^-1 nu), comparisons with that factor > 1e7 excluded and counted",
                 "correspondence is sampled: agreement is established on the generated cases only",
                 "IEEE rounding is not modelled (theorems over an exact real field)"]
 ASSUMPTIONS = ["Eigen's jacobiSvd factor A = U sqrt(s) satisfies A A^T = P for symmetric PSD P (premise of the theorems; checked on every case)",
                "std::sqrt satisfies 0 <= x -> sqrt(x)^2 = x (premise; exact in a real-closed field, up to rounding in doubles)",
                "Eigen inverse()/determinant() behave as matrix inverse/determinant up to rounding (checked against the model's Gauss-Jordan)",
-               "linear state and measurement layouts (no circular / quaternion / noise rows): SUKFCorrection sizes its sigma set from dim",
+               "linear or Euler state layouts (no quaternion / noise rows; with angle rows the covariance theorem carries the premise that the sigma-point perturbations are below pi), "
+               "linear or Euler measurement layouts: SUKFCorrection sizes its sigma set from dim",
+               "the output object has at least as many components as the predicted belief (fewer: out-of-bounds write, Eigen assertion)",
                "0 < measurement_sub_size (meas_size % 0 is undefined behaviour in C++)",
                "one correct() call depends only on that call's inputs (model is a pure function; checked on sequence cases that reuse one object while R, y, h, belief, sizes change)",
                "the measurement model reports valid measurement, prediction and innovation (the validity-flag prefix is C12's subject)"]
 
-RTOL = 1e-10     # mean / covariance: |a - b| <= RTOL * cond * scale; measured worst 2e-14 * cond * scale over 1200 cases
+RTOL_COV, RTOL_MEAN = 5e-12, 5e-11     # see comp_tols: about 500 x the measured worst case
+OUTFEWER_P = {"quick": 0.405, "thorough": 0.4015}     # upper end of the probability slot of the out-of-bounds variant (few cases: each ends the harness process)
 COUNTS = {"quick": (300, 120), "thorough": (10000, 4000)}   # (single-call cases, sequence cases of 2-4 calls)
 
 
@@ -186,20 +198,76 @@ def generate(rng, tier):
         mult = 1
         if rng.random() < 0.15:
             s = rng.randint(2, 3); mult = 0
+            if rng.random() < 0.25:
+                k = 0                                   # measurement smaller than one block (m < s)
         alpha, beta, kappa, wc0, cc = ut_params(rng, n)
         negwc = 0
-        if mult and rng.random() < 0.03:
+        var = "plain"
+        u = rng.random()
+        if mult and u < 0.03:
             # outside the property's scope (wc_0 < 0): the square-root weighting of the serial form yields NaN;
             # kept as a correspondence-only case (model and implementation must agree on the NaN pattern)
             alpha, beta, kappa = rng.uniform(0.05, 0.3), 0.0, 0.0
-            cc = alpha * alpha * n; wc0 = (cc - n) / cc + 1 - alpha * alpha; negwc = 1
-        equal = 1 if (rng.random() < 0.5 or mult == 0 or k == 1) else 0
+            cc = alpha * alpha * n; wc0 = (cc - n) / cc + 1 - alpha * alpha; negwc = 1; var = "negwc"
+        elif mult and u < 0.06:
+            alpha, beta, kappa = 1.0, 0.0, 0.0; cc = float(n); wc0 = 0.0; var = "wc0zero"      # wc_0 = 0 exactly
+        elif mult and u < 0.16 and n >= 2:
+            var = "circstate"                            # Euler angles in the state (trailing nc rows)
+        elif mult and u < 0.22:
+            var = "circmeas"                             # circular measurement description (trailing mc rows)
+        elif mult and u < 0.26 and k >= 2:
+            var = "offblock"                             # full-mode R with non-zero entries outside the diagonal blocks
+        elif mult and u < 0.32:
+            var = "illR"                                 # ill-conditioned noise blocks
+        elif u < 0.40:
+            var = "outmore"                              # output object with more components than the belief
+        elif u < OUTFEWER_P[tier] and comps >= 2 and mult:
+            var = "outfewer"                             # ... with fewer: out-of-bounds write (assertion builds only)
+        equal = 1 if (rng.random() < 0.5 or mult == 0 or k <= 1) else 0
+        if var == "offblock":
+            equal = 0
         st = gen_step(rng, n, s, k, comps, mult, equal)
+        nc = mc = 0
+        if var == "illR":
+            cR = 10 ** rng.uniform(5, 8)
+            blocks = [gen.spd(rng, s, cR if s > 1 else 1.0, lo=10 ** rng.uniform(-6, -2))[0] for _ in range(1 if equal else k)]
+            blocks = blocks * k if equal else blocks
+            st["blocks"] = blocks; st["Rfull"] = blockdiag(blocks); st["condR"] = float(np.linalg.cond(st["Rfull"]))
+        if var == "offblock":
+            E = gen.matrix(rng, st["m"], st["m"], 0.3 * float(np.min(np.linalg.eigvalsh(st["Rfull"]))) / st["m"])
+            E = (E + E.T) / 2
+            for j in range(k):
+                E[j * s:(j + 1) * s, j * s:(j + 1) * s] = 0.0
+            st["Rfull"] = st["Rfull"] + E
+        if var == "circstate":
+            nc = rng.randint(1, n)
+            # keep the sigma-point perturbations of the angle rows below pi: sqrt(c * lambda_max) <= 1.5
+            covs = []
+            for P in st["covs"]:
+                lm = float(np.max(np.linalg.eigvalsh(P)))
+                covs.append(P * min(1.0, 2.25 / (cc * lm)))
+            st["covs"] = covs
+            st["means"][n - nc:, :] = np.array([[rng.uniform(-3.1, 3.1) for _ in range(comps)] for _ in range(nc)])
+            st["y"] = gen_y(rng, st)
+        if var == "circmeas":
+            mc = rng.randint(1, st["m"])
+        outcomps = comps
+        if var == "outmore":
+            outcomps = comps + rng.randint(1, 2)
+        if var == "outfewer":
+            outcomps = comps - 1
         c = caseio.Case(idx, "sukf", {"n": n, "m": st["m"], "s": s, "k": k, "comps": comps, "hkind": st["hkind"], "mult": mult,
-                                      "equal": equal, "rankdef": st["rankdef"], "negwc": negwc,
+                                      "equal": equal, "rankdef": st["rankdef"], "negwc": negwc, "var": var, "nc": nc, "mc": mc,
+                                      "outcomps": outcomps,
                                       "cond": "%.3g" % max(st["condP"], st["condR"]), "wc0": "%.3g" % wc0})
         put_step(c, st, "", equal)
         c.mat("params", np.array([[alpha, beta, kappa]])).int("s", s)
+        if nc:
+            c.int("nc", nc)
+        if mc:
+            c.int("mc", mc)
+        if outcomps != comps:
+            c.int("outcomps", outcomps)
         cases.append(c)
     # sequences: the same SUKFCorrection / UKFCorrection objects driven through several correct() calls while the
     # measurement model's outputs (R, y, h), the predicted belief and the sizes change between the calls
@@ -232,6 +300,7 @@ def step_view(c, t):
     for k in ("m", "k", "comps", "hkind", "mult", "rankdef", "cond"):
         meta[k] = c.meta["%s_%d" % (k, t)]
     meta["second"] = 0
+    meta.update({"var": "plain", "nc": 0, "mc": 0, "outcomps": meta["comps"]})
     v = caseio.Case(c.id, "sukf", meta)
     for tag, name, val in c.ops:
         if name.endswith(suf):
@@ -258,8 +327,9 @@ def nontrivial(c):
                 tuple(int(c.meta["k_%d" % t]) for t in range(1, int(c.meta["steps"]) + 1)))
     n, s, k, comps = int(c.meta["n"]), int(c.meta["s"]), int(c.meta["k"]), int(c.meta["comps"])
     kind, mult = int(c.meta["hkind"]), int(c.meta["mult"])
-    if k >= 2 or comps >= 2 or kind != 0 or mult == 0:
-        return (n, s, k, comps, kind, str(c.meta["equal"]), mult, str(c.meta["rankdef"]), str(c.meta.get("negwc", "0")))
+    if k >= 2 or comps >= 2 or kind != 0 or mult == 0 or str(c.meta.get("var", "plain")) != "plain":
+        return (n, s, k, comps, kind, str(c.meta["equal"]), mult, str(c.meta["rankdef"]), str(c.meta.get("var", "plain")),
+                str(c.meta.get("nc", 0)), str(c.meta.get("mc", 0)))
     return None
 
 
@@ -283,7 +353,7 @@ def lik_scale(c, model, i):
     nu^T R^-1 (I - Y C Y^T R^-1) nu cancels from magnitude nu^T R^-1 nu, through the inverse of C^-1."""
     if model is None or model.get("f_Y%d" % i) is None:
         return LIK_SCALE_MAX          # no model output: the loosest tolerance that is still accepted
-    Y, nu, R = model.get("f_Y%d" % i), model.get("f_innov%d" % i), c.get("Rfull")
+    Y, nu, R = model.get("f_Y%d" % i), model.get("f_innov%d" % i), blockdiag_of(c)
     if not (np.all(np.isfinite(Y)) and np.all(np.isfinite(nu))):
         return LIK_SCALE_MAX
     Ri = np.linalg.inv(R)
@@ -291,7 +361,7 @@ def lik_scale(c, model, i):
     return float(np.linalg.cond(C)) * (1.0 + float((nu.T @ Ri @ nu)[0, 0]))
 
 
-EXCLUDED = {"likelihood_ill_conditioned": 0}
+EXCLUDED = {"likelihood_ill_conditioned": 0, "mean_cov_ill_conditioned": 0}
 LIK_SCALE_MAX = 1e7      # beyond this the likelihood comparison is excluded (and counted): the tolerance would exceed 1e-3 in the log
 LIK_RTOL_MODEL, LIK_RTOL_UKF = 1e-11, 1e-10    # measured: |log a - log b| <= 2e-14 * lik_scale over 1200 cases
 
@@ -344,32 +414,108 @@ def has_second(c):
     return str(c.meta.get("second", "1")) == "1" and int(c.meta["mult"]) and int(c.meta["s"]) >= 2
 
 
+def var_of(c):
+    return str(c.meta.get("var", "plain"))
+
+
+def cond_C(c, model, i):
+    """cond(I + Y^T R^-1 Y) of component i, the matrix the serial form inverts (from the model's Y); None if unavailable"""
+    if model is None or model.get("f_Y%d" % i) is None:
+        return None
+    Y = model.get("f_Y%d" % i)
+    if not np.all(np.isfinite(Y)):
+        return None
+    Rd = blockdiag_of(c)
+    return float(np.linalg.cond(np.eye(Y.shape[1]) + Y.T @ np.linalg.inv(Rd) @ Y))
+
+
+def blockdiag_of(c):
+    """the block-diagonal part of Rfull (what the SUKF reads)"""
+    R = c.get("Rfull"); s_ = int(c.meta["s"]); m = R.shape[0]
+    D = np.zeros_like(R)
+    for j in range(m // s_):
+        D[j * s_:(j + 1) * s_, j * s_:(j + 1) * s_] = R[j * s_:(j + 1) * s_, j * s_:(j + 1) * s_]
+    return D
+
+
+def comp_tols(c, model, i, cov_out, mean_out, which):
+    """(tol_mean, tol_cov, excluded) for component i.  Conditioning of the two routes (measured over 14000 components incl.
+    ill-conditioned noise blocks):  serial form: K_s = cond(I + Y^T R^-1 Y) + max_j cond(R_j)  (the matrix it inverts and the
+    blocks it inverts);  gain form (UKF): K_u = cond(Pyy).  Both cancel from the magnitude of the PRIOR (P - K S K^T;
+    X C X^T with X X^T = P), so the absolute scale is max|P_i| for the covariance and the size of the mean shift for the mean.
+    Measured worst: covariance 3.4e-15 * K * max|P_i|, mean 1.8e-13 * K * shift.  which = 'sukf' (SUKF impl vs model),
+    'ukf' (UKF impl vs spec), 'both' (SUKF vs UKF).  A comparison whose covariance tolerance exceeds 1 % of the largest
+    posterior entry says nothing: it is excluded and counted."""
+    n = int(c.meta["n"]); s_ = int(c.meta["s"])
+    P = c.get("covs")[:, i * n:(i + 1) * n]; x = c.get("means")[:, [i]]
+    R = c.get("Rfull")
+    fallback = float(c.meta["cond"]) * 1e3
+    cc = cond_C(c, model, i)
+    ks = (cc if cc is not None else fallback) + max([float(np.linalg.cond(R[j * s_:(j + 1) * s_, j * s_:(j + 1) * s_])) for j in range(R.shape[0] // s_)] or [1.0])
+    S = model.get("u_Pyy%d" % i) if model is not None else None
+    ku = float(np.linalg.cond(S)) if S is not None and np.all(np.isfinite(S)) else fallback
+    K = {"sukf": ks, "ukf": ku, "both": ks + ku}[which]
+    pm = float(np.max(np.abs(P)))
+    tol_cov = RTOL_COV * K * pm
+    dx = float(np.max(np.abs(mean_out - x))) if mean_out is not None and np.all(np.isfinite(mean_out)) else 1.0
+    tol_mean = RTOL_MEAN * K * max(dx, 1e-3 * float(np.max(np.abs(x))), 1e-12)
+    om = float(np.max(np.abs(cov_out))) if cov_out is not None and np.all(np.isfinite(cov_out)) else math.inf
+    return tol_mean, tol_cov, tol_cov > 1e-2 * om
+
+
 def compare_single(c, impl, model, top=True):
-    cond = case_cond(c, model)
-    comps = int(c.meta["comps"])
+    comps = int(c.meta["comps"]); mult = int(c.meta["mult"]); var = var_of(c)
+    outcomps = max(comps, int(c.meta.get("outcomps", comps))) if mult else comps
+    if impl.get("skipped") == 1:
+        return []                                  # out-of-bounds variant in a build without assertions: not run
     d = caseio.compare_fields(impl, model, ["wm", "wc", "c"], atol=1e-15, rtol=1e-14) if top else []
-    fields, liks = [], []
+    exact = []
     for pre in prefixes(c):
-        fields += [pre + "components", pre + "lik_valid", pre + "weights"]
+        exact += [pre + "components", pre + "lik_valid"]
         if has_second(c):
-            fields += [pre + "2_lik_valid", pre + "2_out_equals_pred"]
+            exact += [pre + "2_lik_valid", pre + "2_out_equals_pred"]
+    d += caseio.compare_fields(impl, model, exact, atol=0, rtol=0)
+    for pre in prefixes(c):
+        d += caseio.compare_fields(impl, model, [pre + "weights"], atol=1e-15, rtol=1e-15)      # frame: the output's weights (0.125) are kept
+        for i in range(outcomps):
+            fm, fc = pre + "mean%d" % i, pre + "cov%d" % i
+            a_m, b_m, a_c, b_c = impl.get(fm), model.get(fm), impl.get(fc), model.get(fc)
+            if a_m is None or b_m is None or a_c is None or b_c is None:
+                d.append("%s/%s: missing" % (fm, fc)); continue
+            if i >= comps or not mult:
+                # untouched components of a larger output object / the copied belief: exact
+                if not (caseio.close(a_m, b_m, 0, 0) and caseio.close(a_c, b_c, 0, 0)):
+                    d.append("%s/%s: not identical to the model (frame)" % (fm, fc))
+                continue
+            tm, tc, excl = comp_tols(c, model, i, a_c, a_m, "sukf")
+            if excl:
+                EXCLUDED["mean_cov_ill_conditioned"] += 1; continue
+            if not caseio.close(a_m, b_m, tm, 0):
+                d.append("%s: max|impl-model|=%.3g (tol %.3g)" % (fm, caseio.maxdiff(a_m, b_m), tm))
+            if not caseio.close(a_c, b_c, tc, 0):
+                d.append("%s: max|impl-model|=%.3g (tol %.3g)" % (fc, caseio.maxdiff(a_c, b_c), tc))
+            if mult:
+                ls = lik_scale(c, model, i)
+                if ls > LIK_SCALE_MAX:
+                    EXCLUDED["likelihood_ill_conditioned"] += 1
+                elif not lik_close(impl.get(pre + "lik%d" % i), model.get(pre + "lik%d" % i), LIK_RTOL_MODEL * ls):
+                    d.append("%slik%d: impl=%r model=%r (log tol %.3g)" % (pre, i, impl.get(pre + "lik%d" % i), model.get(pre + "lik%d" % i), LIK_RTOL_MODEL * ls))
+    if True:
+        # the UKF of the implementation against the spec
         for i in range(comps):
-            fields += [pre + "mean%d" % i, pre + "cov%d" % i]
-            if int(c.meta["mult"]):
-                liks.append(pre + "lik%d" % i)
-    for i in range(comps):
-        fields += ["u_mean%d" % i, "u_cov%d" % i]
-        liks.append("u_lik%d" % i)
-    d += caseio.compare_fields(impl, model, fields, atol=1e-12, rtol=RTOL, scale=cond * pscale(c))
-    for f in liks:
-        i = int(re.search(r"(\d+)$", f).group(1))
-        ls = lik_scale(c, model, i)
-        if ls > LIK_SCALE_MAX:
-            EXCLUDED["likelihood_ill_conditioned"] += 1
-            continue
-        a, b = impl.get(f), model.get(f)
-        if not lik_close(a, b, LIK_RTOL_MODEL * ls):
-            d.append("%s: impl=%r model=%r (log tol %.3g)" % (f, a, b, LIK_RTOL_MODEL * ls))
+            a_m, b_m, a_c, b_c = impl.get("u_mean%d" % i), model.get("u_mean%d" % i), impl.get("u_cov%d" % i), model.get("u_cov%d" % i)
+            if a_m is None or b_m is None or a_c is None or b_c is None:
+                d.append("u_mean%d/u_cov%d: missing" % (i, i)); continue
+            tm, tc, excl = comp_tols(c, model, i, a_c, a_m, "ukf")
+            if excl:
+                continue
+            if not caseio.close(a_m, b_m, tm, 0):
+                d.append("u_mean%d: max|impl-model|=%.3g (tol %.3g)" % (i, caseio.maxdiff(a_m, b_m), tm))
+            if not caseio.close(a_c, b_c, tc, 0):
+                d.append("u_cov%d: max|impl-model|=%.3g (tol %.3g)" % (i, caseio.maxdiff(a_c, b_c), tc))
+            ls = lik_scale(c, model, i) if var != "offblock" else LIK_SCALE_MAX
+            if ls <= LIK_SCALE_MAX and not lik_close(impl.get("u_lik%d" % i), model.get("u_lik%d" % i), LIK_RTOL_MODEL * ls):
+                d.append("u_lik%d: impl=%r model=%r (log tol %.3g)" % (i, impl.get("u_lik%d" % i), model.get("u_lik%d" % i), LIK_RTOL_MODEL * ls))
     return d
 
 
@@ -377,8 +523,14 @@ def oracle_single(c, impl, model):
     """The property clauses evaluated on the implementation's output (one correct() call)."""
     v = []
     n, comps, mult = int(c.meta["n"]), int(c.meta["comps"]), int(c.meta["mult"])
-    cond = case_cond(c, model)
-    covs, means, w = c.get("covs"), c.get("means"), c.get("weights")
+    var = var_of(c)
+    if impl.get("skipped") == 1:
+        return v
+    if var == "outfewer":
+        # reached only where assertions are on: the step must have been stopped by Eigen's assertion (see on_crash)
+        return [("C05:output-fewer-components:no-assertion", "correct() wrote %d components into an output object of %s without an assertion"
+                 % (comps, c.meta["outcomps"]))]
+    covs, means = c.get("covs"), c.get("means")
     # oracle contract: the SVD factor is a square root of the covariance
     for i in range(comps):
         P = covs[:, i * n:(i + 1) * n]; A = impl.get("A%d" % i)
@@ -389,7 +541,7 @@ def oracle_single(c, impl, model):
         flag = "reduced" if pre == "r_" else "full"
         if impl.get(pre + "pred_unchanged") != 1:
             v.append(("C05:prior-modified:%s" % flag, "the predicted belief passed in was modified"))
-        if str(c.meta.get("negwc", "0")) == "1":
+        if var == "negwc":
             continue          # wc_0 < 0: outside the property (the serial form needs sqrt(wc)); correspondence only
         if not mult:
             # size mismatch: output = input exactly, no likelihood
@@ -398,8 +550,8 @@ def oracle_single(c, impl, model):
             if impl.get(pre + "lik_valid") != 0:
                 v.append(("C05:size-mismatch-likelihood:%s" % flag, "a likelihood was reported although no step was performed"))
             continue
-        if impl.get(pre + "components") != comps or impl.get(pre + "dim") != n:
-            v.append(("C05:shape:%s" % flag, "components/dim %s/%s for %d/%d" % (impl.get(pre + "components"), impl.get(pre + "dim"), comps, n)))
+        if impl.get(pre + "dim") != n:
+            v.append(("C05:shape:%s" % flag, "dim %s for %d" % (impl.get(pre + "dim"), n)))
             continue
         if has_second(c):
             # second step on the same object, measurement size m+1: identity, and the first step's likelihood must not survive
@@ -409,30 +561,40 @@ def oracle_single(c, impl, model):
                 v.append(("C05:stale-likelihood-after-size-mismatch:%s" % flag, "getLikelihood() reports the previous step's values after a step that returned early"))
         if impl.get(pre + "lik_valid") != 1 or impl.get(pre + "lik_size") != comps:
             v.append(("C05:likelihood-missing:%s" % flag, "likelihood not reported for every component"))
-        wk = impl.get(pre + "weights")
-        if wk is None or not np.all(wk == 0.125):
-            v.append(("C05:frame-weights:%s" % flag, "the weights of the output object were modified"))
+        if var == "offblock":
+            continue          # R is not block diagonal (the SUKF ignores the off-block entries): outside the premise; correspondence only
         for i in range(comps):
-            P = covs[:, i * n:(i + 1) * n]
             sm, sc_, sl = impl.get(pre + "mean%d" % i), impl.get(pre + "cov%d" % i), impl.get(pre + "lik%d" % i)
             um, uc, ul = impl.get("u_mean%d" % i), impl.get("u_cov%d" % i), impl.get("u_lik%d" % i)
-            tol = RTOL * cond * pscale(c)
-            if not caseio.close(sm, um, tol, 0):
-                v.append(("C05:sukf-ne-ukf:mean:%s" % flag, "component %d: max diff %.3g > %.3g" % (i, caseio.maxdiff(sm, um), tol)))
-            if not caseio.close(sc_, uc, tol, 0):
-                v.append(("C05:sukf-ne-ukf:cov:%s" % flag, "component %d: max diff %.3g > %.3g" % (i, caseio.maxdiff(sc_, uc), tol)))
+            tm, tc, excl = comp_tols(c, model, i, uc, um, "both")
             ls = lik_scale(c, model, i)
+            if excl:
+                continue
+            if not caseio.close(sm, um, tm, 0):
+                v.append(("C05:sukf-ne-ukf:mean:%s" % flag, "component %d: max diff %.3g > %.3g" % (i, caseio.maxdiff(sm, um), tm)))
+            if not caseio.close(sc_, uc, tc, 0):
+                v.append(("C05:sukf-ne-ukf:cov:%s" % flag, "component %d: max diff %.3g > %.3g" % (i, caseio.maxdiff(sc_, uc), tc)))
             if ls <= LIK_SCALE_MAX and not lik_close(sl, ul, LIK_RTOL_UKF * ls):
                 v.append(("C05:sukf-ne-ukf:likelihood:%s" % flag, "component %d: %r vs %r (log tol %.3g)" % (i, sl, ul, LIK_RTOL_UKF * ls)))
-    if mult and c.has("Rblock") and str(c.meta.get("negwc", "0")) != "1":
+    if mult and c.has("Rblock") and var not in ("negwc",):
         for i in range(comps):
-            tol = RTOL * cond * pscale(c)
-            if not (caseio.close(impl.get("r_mean%d" % i), impl.get("f_mean%d" % i), tol, 0)
-                    and caseio.close(impl.get("r_cov%d" % i), impl.get("f_cov%d" % i), tol, 0)
-                    and (lik_scale(c, model, i) > LIK_SCALE_MAX
-                         or lik_close(impl.get("r_lik%d" % i), impl.get("f_lik%d" % i), LIK_RTOL_UKF * lik_scale(c, model, i)))):
+            tm, tc, excl = comp_tols(c, model, i, impl.get("f_cov%d" % i), impl.get("f_mean%d" % i), "sukf")
+            ls = lik_scale(c, model, i)
+            if excl:
+                continue
+            if not (caseio.close(impl.get("r_mean%d" % i), impl.get("f_mean%d" % i), tm, 0)
+                    and caseio.close(impl.get("r_cov%d" % i), impl.get("f_cov%d" % i), tc, 0)
+                    and (ls > LIK_SCALE_MAX or lik_close(impl.get("r_lik%d" % i), impl.get("f_lik%d" % i), LIK_RTOL_UKF * ls))):
                 v.append(("C05:reduced-ne-full", "component %d" % i))
     return v
+
+
+def on_crash(c, info, model):
+    """the out-of-bounds variant must be stopped by Eigen's assertion where assertions are compiled in"""
+    if c.kind == "sukf" and var_of(c) == "outfewer":
+        if "BFL_VERIF_EIGEN_ASSERT" in info.get("stderr", ""):
+            return []
+    return None
 
 
 def histogram(cases):
@@ -454,7 +616,9 @@ def histogram(cases):
             "equal_blocks": count(lambda c: c.meta["equal"]), "rank_deficient_P": count(lambda c: c.meta["rankdef"]),
             "cond_decade": count(lambda c: gen.decade(float(c.meta["cond"]))),
             "sequence_cases": len(seqs), "sequence_calls": count(lambda c: c.meta["steps"], seqs), "sequence_change_between_calls": changes,
-            "likelihood_comparisons_excluded_ill_conditioned": EXCLUDED["likelihood_ill_conditioned"]}
+            "variant": count(lambda c: c.meta.get("var", "plain")),
+            "likelihood_comparisons_excluded_ill_conditioned": EXCLUDED["likelihood_ill_conditioned"],
+            "mean_cov_comparisons_excluded_ill_conditioned": EXCLUDED["mean_cov_ill_conditioned"]}
 
 
 LEVEL_TEXT = ("Proof: the model of SUKFCorrection::correctStep / getLikelihood (sigma points, propagation through an arbitrary measurement "
